@@ -13,18 +13,19 @@ Proof.
   apply AugmentProofs.covers_all. exact H.
 Qed.
 
-(* T1 with the choice clause; the only residual hypothesis is that no depth measurement was cut off at entry_fuel *)
+(* T1 with the choice clause, no residual hypothesis: FixChoice's fuel is derived from the structural height of the
+   trees (Model/Schema.v [height]), so it reaches every node *)
 Theorem Process_TreeInv_choice : forall SC ic ins order F,
   NoDup (map m_name SC) -> (forall m, In m SC -> In (m_name m) order) ->
-  Process SC ic ins order = ROk F -> heights_okb SC ic order = true -> ForestInv true F.
+  Process SC ic ins order = ROk F -> ForestInv true F.
 Proof.
-  intros SC ic ins order F ND H HP HH.
-  apply (Process_TreeInv_full_b SC ic ins order F HP); [apply reporting_pass_idle; assumption | exact HH].
+  intros SC ic ins order F ND H HP.
+  apply (Process_TreeInv_full SC ic ins order F HP). apply reporting_pass_idle; assumption.
 Qed.
 
 Corollary Process_TreeInv_choice_perm : forall SC ic ins order F,
   NoDup (map m_name SC) -> Permutation (map m_name SC) order ->
-  Process SC ic ins order = ROk F -> heights_okb SC ic order = true -> ForestInv true F.
+  Process SC ic ins order = ROk F -> ForestInv true F.
 Proof.
   intros SC ic ins order F ND HPm. apply Process_TreeInv_choice; [exact ND|].
   intros m Hm. eapply Permutation_in; [exact HPm | apply in_map; exact Hm].
